@@ -52,6 +52,38 @@ func registerMoreIntrinsics() {
 			}
 			return p.tb.Bool(strings.Contains(s, sub))
 		},
+		// time.Time is modelled as {0, unix nanoseconds, nil}: all arithmetic on it is done here on the nanosecond field
+		"(time.Time).Sub": func(p *Path, _ *ssa.Function, a []Value) Value {
+			x, y := a[0].(Struct)[1].(*Term), a[1].(Struct)[1].(*Term)
+			if x.sort.K == KInt {
+				return p.tb.ISub(x, y)
+			}
+			return p.tb.Sub(x, y)
+		},
+		"(time.Time).Add": func(p *Path, _ *ssa.Function, a []Value) Value {
+			x, d := a[0].(Struct)[1].(*Term), a[1].(*Term)
+			if x.sort.K == KInt {
+				return Struct{p.ic(0, 64), p.tb.IAdd(x, d), Ptr(nil)}
+			}
+			return Struct{p.ic(0, 64), p.tb.Add(x, d), Ptr(nil)}
+		},
+		"(time.Time).Before": func(p *Path, _ *ssa.Function, a []Value) Value {
+			x, y := a[0].(Struct)[1].(*Term), a[1].(Struct)[1].(*Term)
+			if x.sort.K == KInt {
+				return p.tb.ILt(x, y)
+			}
+			return p.tb.Slt(x, y)
+		},
+		"(time.Time).After": func(p *Path, _ *ssa.Function, a []Value) Value {
+			x, y := a[0].(Struct)[1].(*Term), a[1].(Struct)[1].(*Term)
+			if x.sort.K == KInt {
+				return p.tb.ILt(y, x)
+			}
+			return p.tb.Slt(y, x)
+		},
+		"(time.Duration).String": func(p *Path, _ *ssa.Function, a []Value) Value {
+			return Str{sym: &SymStr{kind: "sprint", args: []Value{a[0]}}}
+		},
 		"(time.Time).UnixNano": func(p *Path, _ *ssa.Function, a []Value) Value {
 			return a[0].(Struct)[1]
 		},
